@@ -53,12 +53,13 @@ theorem site_a (env : Env) (fuel : Nat) (kvs : List (Str × Json)) (name : Str) 
     illFrom env (fuel + 1) (.obj kvs) name data ctx r st = true := by
   simp [runFrom, illFrom, h]
 
-/-- (b) neither End nor Next: the real `leave` raises States.Runtime and the predicate flags it -/
-theorem site_b (env : Env) (fuel : Nat) (states : Json) (name : Str) (state data ctx : Json) (r : Nat) (st : St)
+/-- (b) neither End nor Next: the real `leave` raises States.Runtime (handled on the state's raw
+input) and the predicate flags it -/
+theorem site_b (env : Env) (fuel : Nat) (states : Json) (name : Str) (state raw data ctx : Json) (r : Nat) (st : St)
     (hE : isTrue (fld state "End") = false) (hN : fldStr state "Next" = none) :
-    leave env (fuel + 1) states name state data ctx r st =
-      handleErr env fuel states name state data ctx r (S "States.Runtime") (S "m") st ∧
-    illLeave env (fuel + 1) states name state data ctx r st = true := by
+    leave env (fuel + 1) states name state raw data ctx r st =
+      handleErr env fuel states name state raw ctx r (S "States.Runtime") (S "m") st ∧
+    illLeave env (fuel + 1) states name state raw data ctx r st = true := by
   simp [leave, illLeave, hE, hN]
 
 /-- (c) a Type that is none of the eight -/
@@ -95,13 +96,14 @@ theorem wf_runFrom_finds (env : Env) (fuel d : Nat) (kvs : List (Str × Json)) (
 
 /-- in a well-formed scope the real `leave` ends, reports the data limit, or continues at a state
 defined in the same scope (site (b) is not taken) -/
-theorem wf_leave_continues (env : Env) (fuel : Nat) (kvs : List (Str × Json)) (name : Str) (state data ctx : Json)
+theorem wf_leave_continues (env : Env) (fuel : Nat) (kvs : List (Str × Json)) (name : Str) (state raw data ctx : Json)
     (r : Nat) (st : St) (hl : leaveOk kvs state = true) :
-    leave env (fuel + 1) (.obj kvs) name state data ctx r st = (.done data, st) ∨
-    leave env (fuel + 1) (.obj kvs) name state data ctx r st =
-      handleErr env fuel (.obj kvs) name state data ctx r (S "States.DataLimitExceeded") (S "m") st ∨
+    leave env (fuel + 1) (.obj kvs) name state raw data ctx r st = (.done data, st) ∨
+    leave env (fuel + 1) (.obj kvs) name state raw data ctx r st =
+      handleErr env fuel (.obj kvs) name state raw ctx r (S "States.DataLimitExceeded") (S "m") st ∨
     ∃ next, defined kvs next = true ∧
-      leave env (fuel + 1) (.obj kvs) name state data ctx r st = runFrom env fuel (.obj kvs) next data ctx 0 st := by
+      leave env (fuel + 1) (.obj kvs) name state raw data ctx r st =
+        runFrom env fuel (.obj kvs) next data ctx 0 st := by
   by_cases hE : isTrue (fld state "End") = true
   · left; simp [leave, hE]
   · have hE' : isTrue (fld state "End") = false := by simpa using hE
